@@ -99,8 +99,11 @@ let print_obs (r : ret) (v : view) : unit =
             (b01 m.mo_last) (dec_of_z m.mo_hl) n);
      add (" T=" ^ (if n = 0 then "-" else String.concat "," (List.map (fun c -> hx c.c_text) m.mo_cands)));
      add (" X=" ^ (if n = 0 then "-" else String.concat "," (List.map (fun c -> hx c.c_comment) m.mo_cands)));
-     add (" sk=" ^ hx m.mo_select_keys)
-   | None -> add " ps=0 pg=0 L=0 hl=0 n=0 T=- X=- sk=-");
+     add (" sk=" ^ hx m.mo_select_keys);
+     add (" E=" ^ (if n = 0 then "-" else String.concat "," (List.map (fun c -> string_of_int (int_of_nat c.c_end)) m.mo_cands)))
+   | None -> add " ps=0 pg=0 L=0 hl=0 n=0 T=- X=- sk=- E=-");
+  add (" ge=" ^ (match v.v_back_end with Some e -> string_of_int (int_of_nat e) | None -> "-"));
+  add (" cf=" ^ hx v.v_confirmed);
   add (" S=" ^ b01 v.v_composing ^ String.concat "" (List.map b01 v.v_flags) ^ "0");
   print_endline (Buffer.contents b)
 
@@ -159,7 +162,7 @@ let view_of_line (line : Stdlib.String.t) : view * bool =
   let len_ok = len_ok && List.length texts = n in
   ({ v_commit = bytes_of_hex (f "C"); v_input = bytes_of_hex (f "I"); v_caret = nat_of_int (fi "K");
      v_composing = (f "c" = "1"); v_preedit = pre; v_preview = bytes_of_hex (f "V"); v_has_menu = (f "hm" = "1");
-     v_sel = (if f "si" = "-" then None else Some (n_of_dec (f "si"))); v_menu = menu; v_flags = [] }, len_ok)
+     v_sel = (if f "si" = "-" then None else Some (n_of_dec (f "si"))); v_menu = menu; v_flags = []; v_back_end = None; v_confirmed = [] }, len_ok)
 
 let mode_wf () =
   try
